@@ -64,3 +64,8 @@ add("C19", "model_checking", "vh",
     "explicit-state search over add/undo histories of the real incremental Serializer against a hole-filling tree model",
     "Breadth-first search over histories of Add(fragment, fresh|re-used NodePtr) and Undo(to any saved state) events on the real Serializer, each history replayed on a fresh object: after every undo the bytes/size must equal those recorded before the undone add; add must report completion exactly when the assembled tree has no unfilled sentinel; completed bytes must decode (new, legacy and reference decoder) to the tree assembled by filling sentinel positions in serialization order; byte traces must not depend on the hashing salts (hook H3). Space A (upstream usage: sentinel in tail position) is explored to 4|5 adds / 2 undos / 6|7 events; spaces N, B, C (sentinel in any position, repeated sentinels, re-used non-tail fragments) to 3-4 adds.",
     "Three known findings (exact witness history lists) concern fragments with content after their sentinel; space A is clean. Fragments outside the 15-fragment alphabet and longer histories are not covered.")
+
+add("C01", "model_checking", "vh",
+    "small-scope exhaustive program enumeration: real run_program against a reference interpreter (per-case conformance)",
+    "Every program of six grammars (operator applications over all classic / unassigned / multi-byte unknown opcodes, raw ((op) . args) forms with improper lists, all ordered operator compositions, every small tree interpreted as a program against every small environment, recursive and allocation-heavy families for every parameter, softfork guards with exact/off-by-k/huge/negative/non-canonical costs) is evaluated by the real interpreter and by RefVM; results, costs and success under budgets C, C-1, C+1, C/2 must agree. Consensus changes are named adapters with use counts in the evidence.",
+    "RefVM (harness/src/refvm.rs) is a transcription of the historical Python interpreter (the package itself is not installable offline); it is validated at every start-up against the repository's 1.2k v1 operator vectors and a vector it gets wrong aborts the check as a machinery error. Programs larger than the scopes are not covered.")
